@@ -149,7 +149,7 @@ func c19Loader(w *core.Worker, i int) {
 		w.Inconclusive(err.Error())
 		return
 	}
-	defer s.Close()
+	defer func() { s.Close() }()
 	cur := filepath.Join(w.Work, "current-input.bin")
 	loaded, rejected := 0, 0
 	for k := 0; k < 120; k++ {
@@ -198,10 +198,18 @@ func c19Loader(w *core.Worker, i int) {
 		viol := func(sig, what string) {
 			w.Violation(sig, fmt.Sprintf("%s [%s, %d input bytes]: %s", q, opts, len(data), what), c19Replay{Kind: "loader", Query: q, Input: data, Options: opts, Detail: what})
 		}
-		if res.Panic != "" {
-			viol("panic:"+truncateStr(res.Panic, 60), "panic escaped: "+res.Panic)
-		} else if core.IsFatal(res.Err) {
-			viol("fatal:"+c19FatalSig(res.Err.Error()), truncateStr(res.Err.Error(), 400))
+		if res.Panic != "" || core.IsFatal(res.Err) {
+			if res.Panic != "" {
+				viol("panic:"+truncateStr(res.Panic, 60), "panic escaped: "+res.Panic)
+			} else {
+				viol("fatal:"+c19FatalSig(res.Err.Error()), truncateStr(res.Err.Error(), 400))
+			}
+			// the real process would be gone now; the session may hold a mutex it took before the panic: leave it behind
+			if ns, nerr := core.NewSess(core.SessOpts{Dir: w.Work, Quiet: true, CPU: 2}); nerr == nil {
+				s = ns
+			}
+			w.Case(dg, true)
+			continue
 		} else if res.Err == nil && len(res.Views) == 1 {
 			loaded++
 			v := res.Views[0]
@@ -348,7 +356,11 @@ func c19Programs(r *core.Rng, n int) []string {
 			case 4:
 				out = append(out, fmt.Sprintf("SELECT k, COUNT(*), MAX(v), MEDIAN(v), LISTAGG(v, ',') FROM %s x GROUP BY k HAVING COUNT(*) > %d;", A, r.Intn(3)), fmt.Sprintf("SELECT COUNT(*), SUM(v), AVG(v), MIN(k), JSON_AGG(v) FROM %s x;", A))
 			case 5:
-				out = append(out, fmt.Sprintf("SELECT DISTINCT k, v FROM %s x ORDER BY k DESC NULLS FIRST, v LIMIT %s;", A, b()))
+				out = append(out, fmt.Sprintf("SELECT DISTINCT k, v FROM %s x ORDER BY k DESC NULLS FIRST, v LIMIT %s;", A, b()),
+					// names that belong to the outer query, or to nothing, in every clause
+					fmt.Sprintf("SELECT COUNT(*) FROM %s x GROUP BY nosuch; SELECT nosuch FROM %s x WHERE nosuch2 = 1 ORDER BY nosuch3;", A, A),
+					fmt.Sprintf("SELECT id, (SELECT COUNT(*) FROM %s y GROUP BY x.k), (SELECT MAX(y.v) FROM %s y GROUP BY y.k HAVING x.id > 0 ORDER BY x.v LIMIT 1) FROM %s x;", B, B, A),
+					fmt.Sprintf("SELECT k, COUNT(*) FROM %s x GROUP BY k HAVING nosuch > 1; SELECT k FROM %s x GROUP BY 1, 2, 99; SELECT SUM(v) OVER (PARTITION BY nosuch ORDER BY nosuch2) FROM %s x;", A, A, A))
 			case 6:
 				out = append(out, fmt.Sprintf("SELECT id, RANK() OVER (PARTITION BY k ORDER BY v), SUM(v) OVER (PARTITION BY k), LAG(v, 2) OVER (ORDER BY id), NTILE(3) OVER (ORDER BY id) FROM %s x;", A))
 			case 7:
@@ -402,10 +414,17 @@ func c19ProgramFuzz(w *core.Worker, i int) {
 		viol := func(sig, what string) {
 			w.Violation(sig, fmt.Sprintf("%s: %s", truncateStr(p, 300), what), c19Replay{Kind: "program", Query: p, Detail: what})
 		}
-		if res.Panic != "" {
-			viol("panic:"+truncateStr(res.Panic, 60), "panic escaped: "+res.Panic)
-		} else if core.IsFatal(res.Err) {
-			viol("fatal:"+c19FatalSig(res.Err.Error()), truncateStr(res.Err.Error(), 400))
+		if res.Panic != "" || core.IsFatal(res.Err) {
+			if res.Panic != "" {
+				viol("panic:"+truncateStr(res.Panic, 60), "panic escaped: "+res.Panic)
+			} else {
+				viol("fatal:"+c19FatalSig(res.Err.Error()), truncateStr(res.Err.Error(), 400))
+			}
+			if ns, nerr := core.NewSess(core.SessOpts{Dir: w.Work, Quiet: true, CPU: 4}); nerr == nil {
+				s = ns // see c19Loader
+			}
+			w.Case(core.Digest(p), !res.SynErr)
+			continue
 		} else if res.Err != nil {
 			failed++
 			if res.Code != 1 && res.Code != 2 && res.Code != 4 && res.Code != 8 && res.Code != 16 && res.Code != 32 && res.Code != 64 && !strings.HasPrefix(p, "TRIGGER ERROR") { // TRIGGER ERROR n requests its own code
